@@ -208,6 +208,30 @@ def spec_eval(expr, context, dims):
     return expr
 
 
+def number_distribution(rho, dims, tidx):
+    """P(total photon number of the target modes == k), from the reduced state of the targets."""
+    red = S.spec_ptrace(rho, dims, tidx)
+    td = [dims[i] for i in tidx]
+    diag = np.real(np.diag(red)).reshape(td)
+    out = np.zeros(sum(td) - len(td) + 1)
+    for idx in np.ndindex(*td):
+        out[sum(idx)] += diag[idx]
+    return out
+
+
+def number_conservation_clauses(operation, tn, tidx, rho_before, rho_after, dims) -> List[Clause]:
+    """C11: a beam splitter on two modes / a phase shifter on one mode never changes the distribution of the total
+    photon number of the modes involved."""
+    fam, nm = op_family(operation), operation._operation_type.name
+    if not ((fam == "CompositeOperationType" and nm == "NonPolarizingBeamSplitter") or (fam == "FockOperationType" and nm == "PhaseShift")):
+        return []
+    a = number_distribution(rho_before, dims, tidx)
+    b = number_distribution(rho_after, dims, tidx)
+    d = float(np.max(np.abs(a - b)))
+    return [Clause("C11", "total-photon-number-distribution-is-conserved", d <= 1e-8,
+                   f"{nm} on {tn}: distribution {np.round(a, 6).tolist()} -> {np.round(b, 6).tolist()}")]
+
+
 def auto_dimension_clauses(operation, tn, tidx, rho0, dims0, dims1, rho1, ren) -> List[Clause]:
     """C10: the dimension chosen automatically before an operation is large enough: the result equals the ideal
     (cut-off + 40) result restricted to the chosen space - exactly for ladder / phase / beam-splitter operations, and up
@@ -226,7 +250,8 @@ def auto_dimension_clauses(operation, tn, tidx, rho0, dims0, dims1, rho1, ren) -
     tidx = list(range(len(tidx)))
     big = list(dims1)
     for i in tidx:
-        big[i] = max(dims1[i], dims0[i]) + 40
+        # beam splitters conserve the total number: a small head-room suffices (and keeps expm of the two-mode generator cheap)
+        big[i] = max(dims1[i], dims0[i]) + (40 if len(tidx) == 1 else 4)
     # only Fock targets are enlarged (polarization / custom targets keep their dimension)
     for i in tidx:
         if not tn[tidx.index(i)].endswith(".f"):
@@ -319,6 +344,7 @@ class ApplyOperation(Contract):
         cl.append(state_clause(prop, "joint-state-is-(O x I) rho (O x I)^dagger", exp, rho1,
                                extra=f"[{ghost['op']._operation_type.name} on {tn}, dims {dims0}->{dims1}]"))
         cl += auto_dimension_clauses(ghost["op"], tn, tidx, rho0, dims0, dims1, rho1, ren)
+        cl += number_conservation_clauses(ghost["op"], tn, tidx, padded, rho1, dims1)
         for t, i in zip(tn, tidx):
             b = new.block_of(t)
             ax = b.dims[b.members.index(t)]
